@@ -75,10 +75,30 @@ def run_pipe(b, cases, stages="asw", timeout=300, cwd=None):
     k = common.NCPU * 2
     chunks = [cases[i::k] for i in range(k) if cases[i::k]]
     common.pmap(work, chunks)
+    # a case that ran into the watchdog is run again ALONE with a budget ten times as large: on a loaded machine eight seconds of wall
+    # clock can pass for a case that needs milliseconds, and a hang must be a hang of the transpiler, not of the scheduler
+    slow = [c for c in cases if any(v[0] == "DIVERGE" for k_, v in c.out.items() if k_ != "_done")]
+    if slow and not _retrying.get("on"):
+        _retrying["on"] = True
+        try:
+            old_env = os.environ.get("TSHDUMP_WATCHDOG")
+            os.environ["TSHDUMP_WATCHDOG"] = "80"
+            for c in slow:
+                c.out.clear()
+                work([c])
+        finally:
+            _retrying["on"] = False
+            if old_env is None:
+                os.environ.pop("TSHDUMP_WATCHDOG", None)
+            else:
+                os.environ["TSHDUMP_WATCHDOG"] = old_env
     return cases
 
 
-def model_lines(b, reqs, timeout=600):
+_retrying = {}
+
+
+def model_lines(b, reqs, timeout=3600):
     """Send request lines to the Lean driver in parallel chunks; returns answers in order."""
     idx = list(range(len(reqs)))
     parts = common.chunks(idx, common.NCPU)
